@@ -1,8 +1,38 @@
 #!/bin/bash
-# tools/verify_seed.sh <round-prefix e.g. seed2> <wt-prefix e.g. wt2> <Cnn> : run the agent's demo on its changed worktree and on the clean one
-R="$1"; W="$2"; P="$3"
-cd /tmp/${R}_$P || exit 2
-for wt in /tmp/${W}_$P /tmp/wt_clean; do
-  CIDER_REPO=$wt CIDER_VERIF_LIBDIR=$wt/_lib OMP_NUM_THREADS=2 PYTHONPATH=/tmp/cpenv timeout 2400 /venv/bin/python demo.py > /tmp/verify_${P}_$(basename $wt).txt 2>&1
-  echo "$P $(basename $wt) rc=$? : $(grep -v Warn /tmp/verify_${P}_$(basename $wt).txt | tail -1 | cut -c1-160)"
-done
+# tools/verify_seed.sh <agent_out_dir> <seed id e.g. C11_3>
+# Confirms a sub-agent's seeded regression in a scratch worktree (never /repo): patch applies, C builds,
+# demo fails with the change and passes without it, the pinned suite still gives 143 passes.  On success
+# copies patch.diff / demo.py / demo_output.txt / meta.json into /verif/seeded/<id>/ and appends what was run.
+set -u
+SRC="$1"; ID="$2"
+WT=/tmp/seedverify_$ID
+export OMP_NUM_THREADS=4 PYTHONPATH=/tmp/cpenv CIDER_WT=$WT
+git -C /repo worktree remove --force $WT 2>/dev/null
+git -C /repo worktree add --detach -q $WT HEAD || exit 2
+cleanup() { git -C /repo worktree remove --force $WT; }
+trap cleanup EXIT
+sed "s#/tmp/seedr3/[A-Za-z0-9_]*_r[0-9]\b#$WT#g" "$SRC/demo.py" > $WT/_demo.py
+/tmp/cpenv/build.sh $WT >/dev/null || { echo "clean build failed"; exit 2; }
+(cd $WT && timeout 1500 /venv/bin/python _demo.py > $WT/_clean.out 2>&1); rc_clean=$?
+git -C $WT apply "$SRC/patch.diff" || { echo "RESULT $ID: patch does not apply"; exit 1; }
+/tmp/cpenv/build.sh $WT >/dev/null || { echo "RESULT $ID: build fails with patch"; exit 1; }
+(cd $WT && timeout 1500 /venv/bin/python _demo.py > $WT/_changed.out 2>&1); rc_changed=$?
+(cd $WT && env -u PYTHONPATH -u CIDER_WT /venv/bin/python -m pytest -q -p no:cacheprovider --timeout=900 --continue-on-collection-errors 2>&1 | tail -1 > $WT/_tests.out)
+tests="$(cat $WT/_tests.out)"
+echo "RESULT $ID: demo clean rc=$rc_clean changed rc=$rc_changed; tests: $tests"
+tail -3 $WT/_clean.out | sed 's/^/   clean: /'; tail -3 $WT/_changed.out | sed 's/^/   changed: /'
+if [ $rc_clean -eq 0 ] && [ $rc_changed -ne 0 ] && echo "$tests" | grep -q "143 passed"; then
+  D=/verif/seeded/$ID; mkdir -p $D
+  cp "$SRC/patch.diff" "$SRC/demo.py" "$SRC/meta.json" $D/
+  [ -f "$SRC/demo_output.txt" ] && cp "$SRC/demo_output.txt" $D/
+  /venv/bin/python - "$D/meta.json" "$rc_clean" "$rc_changed" "$tests" <<'PY'
+import json,sys
+p=sys.argv[1]; m=json.load(open(p))
+m["confirmed_by_main"]={"how":"tools/verify_seed.sh in a scratch worktree: /tmp/cpenv/build.sh, demo.py on clean and patched tree, pinned suite on patched tree",
+  "demo_rc_clean":int(sys.argv[2]),"demo_rc_changed":int(sys.argv[3]),"pinned_suite_patched":sys.argv[4]}
+json.dump(m,open(p,"w"),indent=1)
+PY
+  echo "KEPT $ID"
+else
+  echo "NOT KEPT $ID"
+fi
